@@ -1488,7 +1488,8 @@ func runC06JSONMerge(c *Ctx) {
 		return
 	}
 	n := 0
-	eachInstr(fn, func(b *ssa.BasicBlock, _ int, in ssa.Instruction) {
+	scope := jsonTypingFuncs(p, fn)
+	eachInstrOf(scope, func(b *ssa.BasicBlock, _ int, in ssa.Instruction) {
 		call, ok := in.(*ssa.Call)
 		if !ok || !call.Call.IsInvoke() || call.Call.Method.Name() != "Merge" || !blockInCycle(b) {
 			return
@@ -1513,7 +1514,11 @@ func runC06JSONMerge(c *Ctx) {
 	// no decision at all in the construction of a JSON value's type rests on a comparison that `any` satisfies
 	construct := "typeOfJSONValue|no branch on a comparison that any satisfies"
 	bad := token.NoPos
-	for _, b := range fn.Blocks {
+	var allBlocks []*ssa.BasicBlock
+	for _, f := range scope {
+		allBlocks = append(allBlocks, f.Blocks...)
+	}
+	for _, b := range allBlocks {
 		if ifi, ok := b.Instrs[len(b.Instrs)-1].(*ssa.If); ok {
 			if mentionsInvoke(ifi.Cond, "EqualTypes", 0) || mentionsInvoke(ifi.Cond, "Assignable", 0) {
 				bad = ifi.Cond.Pos()
@@ -2169,7 +2174,7 @@ func runC08JSONKeys(c *Ctx) {
 	construct := "typeOfJSONValue|keys that collide after lower-casing"
 	bad := false
 	n := 0
-	eachInstr(fn, func(b *ssa.BasicBlock, _ int, in ssa.Instruction) {
+	eachInstrOf(jsonTypingFuncs(p, fn), func(b *ssa.BasicBlock, _ int, in ssa.Instruction) {
 		call, ok := in.(*ssa.Call)
 		if !ok || !call.Call.IsInvoke() || call.Call.Method.Name() != "Merge" {
 			return
@@ -2185,7 +2190,7 @@ func runC08JSONKeys(c *Ctx) {
 			}
 		}
 	})
-	eachInstr(fn, func(_ *ssa.BasicBlock, _ int, in ssa.Instruction) {
+	eachInstrOf(jsonTypingFuncs(p, fn), func(_ *ssa.BasicBlock, _ int, in ssa.Instruction) {
 		if lk, ok := in.(*ssa.Lookup); ok && lk.CommaOk {
 			if _, isMake := lk.X.(*ssa.MakeMap); isMake {
 				n++
@@ -2207,7 +2212,7 @@ func runC08JSONKeys(c *Ctx) {
 	// Assignable (string accepts number but not the reverse, so the spelling that sorts first would decide the type)
 	construct = "typeOfJSONValue|test applied to keys that collide after lower-casing"
 	var asym *ssa.Call
-	eachInstr(fn, func(b *ssa.BasicBlock, _ int, in ssa.Instruction) {
+	eachInstrOf(jsonTypingFuncs(p, fn), func(b *ssa.BasicBlock, _ int, in ssa.Instruction) {
 		call, ok := in.(*ssa.Call)
 		if !ok {
 			return
@@ -3387,4 +3392,41 @@ func constMapKeys(p *Prog, g *ssa.Global) []string {
 		}
 	})
 	return out
+}
+
+// jsonTypingFuncs: typeOfJSONValue and the module functions it hands a part of the value to that call it back (the switch
+// split into one function per JSON kind).
+func jsonTypingFuncs(p *Prog, fn *ssa.Function) []*ssa.Function {
+	out := []*ssa.Function{fn}
+	eachInstr(fn, func(_ *ssa.BasicBlock, _ int, in ssa.Instruction) {
+		call, ok := in.(*ssa.Call)
+		if !ok {
+			return
+		}
+		g := staticCallee(&call.Call)
+		if g == nil || g == fn || !inPkgName(g) || g.Blocks == nil {
+			return
+		}
+		back := false
+		eachInstr(g, func(_ *ssa.BasicBlock, _ int, in2 ssa.Instruction) {
+			if c2, ok := in2.(*ssa.Call); ok && staticCallee(&c2.Call) == fn {
+				back = true
+			}
+		})
+		if back {
+			for _, h := range out {
+				if h == g {
+					return
+				}
+			}
+			out = append(out, g)
+		}
+	})
+	return out
+}
+
+func eachInstrOf(fns []*ssa.Function, f func(b *ssa.BasicBlock, i int, in ssa.Instruction)) {
+	for _, fn := range fns {
+		eachInstr(fn, f)
+	}
 }
